@@ -361,6 +361,15 @@ def d130():
     return None if got == [-57.0, -30.0, -3.0, 39.0, 81.0] else f"second derivative of uint8 [100,90,50,7,3]: {got}"
 
 
+def d131():
+    r = df.Region(p1=(-13, 18), p2=(-12.75, 30.5))
+    q = r.rotate90("x", "y", k=1002, reference_point=(5.0, 1.5))
+    want = r.rotate90("x", "y", k=2, reference_point=(5.0, 1.5))
+    if not (np.array_equal(q.pmin, want.pmin) and np.array_equal(q.pmax, want.pmax)):
+        return f"rotate90(k=1002) differs from rotate90(k=2): {q.pmin.tolist()} {q.pmax.tolist()} vs {want.pmin.tolist()} {want.pmax.tolist()}"
+    return None if float(q.edges[0]) == 0.25 else f"edge 0.25 became {float(q.edges[0])!r}"
+
+
 ALL = {
     "D1": ("C13", d1), "D2": ("C13", d2), "D3": ("C12", d3), "D4": ("C12", d4),
     "D5": ("C08", d5), "D6": ("C08", d6), "D7": ("C08", d7), "D8": ("C03", d8),
@@ -368,7 +377,7 @@ ALL = {
     "D14": ("C09", d14), "D15": ("C09", d15), "D16": ("C11", d16), "D20": ("C19", d20), "D21": ("C13", d21), "D22": ("C08", d22), "D23": ("C03", d23), "D31": ("C10", d31), "D41": ("C02", d41), "D43": ("C02", d43), "D44": ("C02", d44),
     "D101": ("C01", d101), "D111": ("C08", d111), "D113": ("C13", d113), "D114": ("C12", d114),
     "D45": ("C02", d45), "D46": ("C02", d46),
-    "D123": ("C04", d123), "D124": ("C01", d124), "D58": ("C13", d58), "D125": ("C12", d125), "D130": ("C04", d130),
+    "D123": ("C04", d123), "D124": ("C01", d124), "D58": ("C13", d58), "D125": ("C12", d125), "D130": ("C04", d130), "D131": ("C13", d131),
 }
 
 
